@@ -144,4 +144,68 @@ theorem resumeRun_eq_oneShotI (P : Parser σ) (Inv : Buf → Nat → σ → Prop
       obtain ⟨s, rfl⟩ := hext x hx
       exact (hP b s o st o1 s1 hI hp).1
 
+/-! ### schedules up to an observation of the object
+
+Some parsers keep write-only bookkeeping (e.g. the saved restart offset of the name-addr parser) whose final
+value after an ERROR verdict depends on the chunking; everything a caller can read is the same. `obs` is
+the projection onto what can be read. -/
+
+variable {τ : Type}
+
+/-- same offset, same verdict, same observable object -/
+def ResEq (obs : σ → τ) (r1 r2 : Nat × Err × σ) : Prop :=
+  r1.1 = r2.1 ∧ r1.2.1 = r2.2.1 ∧ obs r1.2.2 = obs r2.2.2
+
+theorem ResEq.refl (obs : σ → τ) (r : Nat × Err × σ) : ResEq obs r r := ⟨rfl, rfl, rfl⟩
+
+theorem ResEq.trans {obs : σ → τ} {r1 r2 r3 : Nat × Err × σ} (h1 : ResEq obs r1 r2) (h2 : ResEq obs r2 r3) :
+    ResEq obs r1 r3 := ⟨h1.1.trans h2.1, h1.2.1.trans h2.2.1, h1.2.2.trans h2.2.2⟩
+
+def ResumableO (P : Parser σ) (Inv : Buf → Nat → σ → Prop) (obs : σ → τ) : Prop :=
+  ∀ b s o st o' st', Inv b o st → P b o st = (o', Err.moreBytes, st') →
+    ResEq obs (P (b ++ s) o' st') (P (b ++ s) o st) ∧ Inv (b ++ s) o' st'
+
+theorem oneShotRun_congrO (P : Parser σ) (obs : σ → τ) (o o' : Nat) (st st' : σ) (l : List Buf) (hl : l ≠ [])
+    (h : ∀ x ∈ l, ResEq obs (P x o' st') (P x o st)) :
+    ResEq obs (oneShotRun P o' st' l) (oneShotRun P o st l) := by
+  induction l with
+  | nil => exact absurd rfl hl
+  | cons b rest ih =>
+    cases rest with
+    | nil => simp only [oneShotRun]; exact h b (List.mem_cons_self)
+    | cons b' rest' =>
+      simp only [oneShotRun]
+      have hb := h b List.mem_cons_self
+      rcases hp : P b o st with ⟨o1, e1, s1⟩
+      rcases hp' : P b o' st' with ⟨o2, e2, s2⟩
+      rw [hp, hp'] at hb
+      have he : e2 = e1 := hb.2.1
+      subst he
+      have ih' := ih (by simp) (fun x hx => h x (List.mem_cons_of_mem _ hx))
+      cases e2 <;> first | exact hb | exact ih'
+
+/-- **schedule theorem up to observation**: for every growing sequence of prefixes, the chain of resumed
+    calls returns the offset, the verdict and the observable object of fresh one-shot calls. -/
+theorem resumeRun_eq_oneShotO (P : Parser σ) (Inv : Buf → Nat → σ → Prop) (obs : σ → τ)
+    (hP : ResumableO P Inv obs) (o : Nat) (st : σ) (l : List Buf) (hg : Growing l)
+    (h0 : ∀ b ∈ l.head?, Inv b o st) : ResEq obs (resumeRun P o st l) (oneShotRun P o st l) := by
+  induction l generalizing o st with
+  | nil => exact ResEq.refl _ _
+  | cons b rest ih =>
+    cases rest with
+    | nil => exact ResEq.refl _ _
+    | cons b' rest' =>
+      simp only [resumeRun, oneShotRun]
+      have hI : Inv b o st := h0 b (by simp)
+      rcases hp : P b o st with ⟨o1, e1, s1⟩
+      cases e1 <;> simp only <;> try exact ResEq.refl _ _
+      have hext := growing_ext hg
+      obtain ⟨s', hs'⟩ := hext b' List.mem_cons_self
+      have hI' : Inv b' o1 s1 := by rw [hs']; exact (hP b s' o st o1 s1 hI hp).2
+      refine ResEq.trans (ih o1 s1 (growing_tail hg) (by intro x hx; simp at hx; subst hx; exact hI')) ?_
+      apply oneShotRun_congrO P obs o o1 st s1 (b' :: rest') (by simp)
+      intro x hx
+      obtain ⟨s, rfl⟩ := hext x hx
+      exact (hP b s o st o1 s1 hI hp).1
+
 end Sipsp
